@@ -95,7 +95,9 @@ type Op struct {
 	Reader string `json:"reader,omitempty"`
 	// DelayMs (sub, slow reader): pause between two reads.
 	DelayMs int `json:"delay_ms,omitempty"`
-	// N: emit => number of events; take => items; sleep => milliseconds.
+	// N: emit => number of events; take => items; sleep => milliseconds;
+	// stop (concurrent mode, batch with emissions) => call Stop at the moment
+	// the N-th event of the batch starts to be sent (0 = at StartUs).
 	N int `json:"n,omitempty"`
 	// DiscEvery (emit): every DiscEvery-th event of the burst disconnects
 	// the tip instead of connecting a block (0 = never).
@@ -113,7 +115,7 @@ func (o Op) String() string {
 	case kTake:
 		return fmt.Sprintf("take(sub=%d,n=%d)", o.Sub, o.N)
 	case kStop:
-		return "stop"
+		return fmt.Sprintf("stop(atEvent=%d)", o.N)
 	}
 	return fmt.Sprintf("%s(sub=%d)", o.Kind, o.Sub)
 }
@@ -127,29 +129,32 @@ type Case struct {
 	Ops        []Op `json:"ops"`
 }
 
+func genSub(t *rapid.T, op *Op) {
+	op.Back = rapid.OneOf(
+		rapid.Just(-1), rapid.Just(-1), rapid.Just(0), rapid.IntRange(1, 5), rapid.IntRange(1, 5),
+		rapid.IntRange(15, 60), rapid.IntRange(15, 60), rapid.IntRange(15, 60), rapid.Just(-2),
+	).Draw(t, "back")
+	op.Reader = rapid.SampledFrom([]string{rdFast, rdFast, rdSlow, rdManual, rdNever, rdNever}).Draw(t, "reader")
+	if op.Reader == rdSlow {
+		op.DelayMs = rapid.IntRange(1, 20).Draw(t, "delay_ms")
+	}
+}
+
 func genOp(t *rapid.T) Op {
 	kind := rapid.SampledFrom([]string{
 		kSub, kSub, kSub, kSub,
-		kEmit, kEmit, kEmit, kEmit, kEmit, kEmit,
+		kEmit, kEmit, kEmit, kEmit, kEmit, kEmit, kEmit,
 		kCancel, kCancel, kCancel,
-		kTake, kTake,
+		kTake, kTake, kTake,
 		kStall,
 		kSleep,
-		kStop,
 	}).Draw(t, "kind")
 	op := Op{Kind: kind}
 	op.Join = rapid.Bool().Draw(t, "join")
 	op.StartUs = rapid.IntRange(0, 2).Draw(t, "start_us")
 	switch kind {
 	case kSub:
-		op.Back = rapid.OneOf(
-			rapid.Just(-1), rapid.Just(0), rapid.IntRange(1, 5),
-			rapid.IntRange(15, 60), rapid.IntRange(15, 60), rapid.Just(-2),
-		).Draw(t, "back")
-		op.Reader = rapid.SampledFrom([]string{rdFast, rdFast, rdSlow, rdManual, rdNever, rdNever}).Draw(t, "reader")
-		if op.Reader == rdSlow {
-			op.DelayMs = rapid.IntRange(1, 20).Draw(t, "delay_ms")
-		}
+		genSub(t, &op)
 	case kEmit:
 		op.N = rapid.OneOf(rapid.IntRange(1, 3), rapid.IntRange(1, 3), rapid.IntRange(15, 30), rapid.IntRange(40, 70)).Draw(t, "n")
 		op.DiscEvery = rapid.OneOf(rapid.Just(0), rapid.Just(0), rapid.IntRange(1, 5)).Draw(t, "disc_every")
@@ -165,12 +170,38 @@ func genOp(t *rapid.T) Op {
 }
 
 func genCase(t *rapid.T) Case {
-	return Case{
+	c := Case{
 		Conc:       rapid.Bool().Draw(t, "conc"),
 		InitTip:    rapid.IntRange(1, 70).Draw(t, "init_tip"),
 		DrainFirst: rapid.Bool().Draw(t, "drain_first"),
-		Ops:        rapid.SliceOfN(rapid.Custom(genOp), 1, 24).Draw(t, "ops"),
 	}
+	// A few subscribers first (so that the script has somebody to act on),
+	// then the free-form script.
+	pre := rapid.SliceOfN(rapid.Custom(func(t *rapid.T) Op {
+		op := Op{Kind: kSub, Join: rapid.Bool().Draw(t, "join")}
+		genSub(t, &op)
+		return op
+	}), 0, 3).Draw(t, "pre")
+	ops := rapid.SliceOfN(rapid.Custom(genOp), 1, 24).Draw(t, "ops")
+	c.Ops = append(pre, ops...)
+	// Every run ends with a Stop issued by the harness at quiescence; about
+	// a third of the cases also stop the manager explicitly near the end of
+	// the script, possibly concurrently with the operations around it.
+	if rapid.IntRange(0, 2).Draw(t, "stop") == 0 {
+		at := len(c.Ops) - rapid.IntRange(0, 4).Draw(t, "stop_before")
+		if at < 0 {
+			at = 0
+		}
+		st := []Op{{Kind: kStop, Join: rapid.Bool().Draw(t, "stop_join"), StartUs: rapid.IntRange(0, 2).Draw(t, "stop_start_us"),
+			N: rapid.IntRange(0, 40).Draw(t, "stop_at_event")}}
+		// ... often together with a burst of events: concurrently in
+		// concurrent mode, afterwards (nothing may arrive) in step mode.
+		if n := rapid.OneOf(rapid.Just(0), rapid.IntRange(2, 60)).Draw(t, "stop_emit"); n > 0 {
+			st = append(st, Op{Kind: kEmit, Join: true, N: n})
+		}
+		c.Ops = append(c.Ops[:at:at], append(st, c.Ops[at:]...)...)
+	}
+	return c
 }
 
 // ident is the identity of a notification as seen through the public
@@ -337,9 +368,10 @@ type emitJob struct {
 
 // emitter sends the events of the given jobs, in order, on the unbuffered
 // source channel, like blockManager.onBlockConnected / onBlockDisconnected.
-func (h *harness) emitter(jobs []emitJob, abandon <-chan struct{}, done chan<- struct{}) {
+func (h *harness) emitter(jobs []emitJob, abandon <-chan struct{}, done chan<- struct{}, trigAt int, trig chan struct{}) {
 	defer close(done)
 	t0 := time.Now()
+	count := 0
 	for _, j := range jobs {
 		if d := time.Duration(j.startUs)*time.Microsecond - time.Since(t0); d > 0 {
 			time.Sleep(d)
@@ -350,6 +382,9 @@ func (h *harness) emitter(jobs []emitJob, abandon <-chan struct{}, done chan<- s
 			h.events = append(h.events, ident(n))
 			h.sentStart++
 			h.mu.Unlock()
+			if count++; count == trigAt {
+				close(trig)
+			}
 			select {
 			case h.ch <- n:
 				h.mu.Lock()
@@ -448,14 +483,30 @@ func (h *harness) expLen(s *subscriber, c *cand) int {
 	return n
 }
 
-// pending = accepted by the manager for s but not yet read by s (mu held).
+// pending = accepted by the manager for s but not yet read by s, under the
+// admissible expectation that yields the smallest number (mu held).
 func (h *harness) pending(s *subscriber) int {
+	p, first := 0, true
 	for i := range s.cands {
 		if s.cands[i].ok {
-			return h.expLen(s, &s.cands[i]) - len(s.log)
+			if x := h.expLen(s, &s.cands[i]) - len(s.log); first || x < p {
+				p, first = x, false
+			}
 		}
 	}
-	return 0
+	return p
+}
+
+func (h *harness) pendingMax(s *subscriber) int {
+	p := 0
+	for i := range s.cands {
+		if s.cands[i].ok {
+			if x := h.expLen(s, &s.cands[i]) - len(s.log); x > p {
+				p = x
+			}
+		}
+	}
+	return p
 }
 
 func (h *harness) ctx() string {
@@ -549,16 +600,47 @@ func tail(l []string, n int) []string {
 	return l
 }
 
-// complete: s has read a whole admissible expected stream (mu held).
-func (h *harness) complete(s *subscriber) bool {
+// readCount checks, at a quiescent point, that a reader willing to read up to
+// limit items in total (limit < 0: everything) has read exactly what was due.
+// The verdict is existential over the admissible expectations: those that do
+// not explain the count are discarded for good, and the check fails only if
+// none is left (mu held; verify has been called).
+func (h *harness) readCount(s *subscriber, limit int) bool {
+	good := 0
 	for i := range s.cands {
 		c := &s.cands[i]
-		if c.ok && c.checked == len(s.log) && len(s.log) == h.expLen(s, c) {
-			return true
+		if !c.ok {
+			continue
+		}
+		want := h.expLen(s, c)
+		if limit >= 0 && limit < want {
+			want = limit
+		}
+		if c.checked == len(s.log) && len(s.log) == want {
+			good++
 		}
 	}
-	return false
+	if good == 0 {
+		return false
+	}
+	for i := range s.cands {
+		c := &s.cands[i]
+		if !c.ok {
+			continue
+		}
+		want := h.expLen(s, c)
+		if limit >= 0 && limit < want {
+			want = limit
+		}
+		if len(s.log) != want {
+			c.ok = false
+		}
+	}
+	return true
 }
+
+// complete: s has read a whole admissible expected stream (mu held).
+func (h *harness) complete(s *subscriber) bool { return h.readCount(s, -1) }
 
 // processNew turns the outcome of a NewSubscription call into expectations.
 func (h *harness) processNew(s *subscriber) {
@@ -652,11 +734,15 @@ func (h *harness) runBatch(ops []Op) {
 	var stopDone chan struct{}
 	var desc []string
 	hasEmit := false
+	totalEmit := 0
 	for _, op := range ops {
 		if op.Kind == kEmit {
 			hasEmit = true
+			totalEmit += op.N
 		}
 	}
+	trigAt := 0
+	var trig chan struct{}
 	h.mu.Lock()
 	pend := map[*subscriber]int{}
 	for _, s := range regs {
@@ -787,7 +873,16 @@ func (h *harness) runBatch(ops []Op) {
 			}
 			stopDone = make(chan struct{})
 			sd := stopDone
+			var waitFor chan struct{}
+			if op.N > 0 && totalEmit > 0 && len(ops) > 1 {
+				trigAt = 1 + (op.N-1)%totalEmit
+				trig = make(chan struct{})
+				waitFor = trig
+			}
 			start(op.StartUs, func() {
+				if waitFor != nil {
+					<-waitFor
+				}
 				h.mu.Lock()
 				h.stopStarted = true
 				h.mu.Unlock()
@@ -816,7 +911,7 @@ func (h *harness) runBatch(ops []Op) {
 			}
 		}
 		emitDone, emitAbandon = make(chan struct{}), make(chan struct{})
-		h.spawn(func() { h.emitter(jobs, emitAbandon, emitDone) })
+		h.spawn(func() { h.emitter(jobs, emitAbandon, emitDone, trigAt, trig) })
 	}
 	h.v.Logf("%s", strings.Join(desc, " || "))
 	if wait > 0 {
@@ -825,6 +920,20 @@ func (h *harness) runBatch(ops []Op) {
 	synctest.Wait()
 
 	// --- everything is quiescent: evaluate ---
+	if emitDone != nil && !isClosed(emitDone) {
+		h.mu.Lock()
+		st, ss, sd := h.stopStarted, h.sentStart, h.sentDone
+		h.mu.Unlock()
+		if !st {
+			h.fail("C11/emit-blocked", "the running manager does not take event %d from the source although the bubble is quiescent (%d taken): the event is delayed for every subscriber", ss-1, sd)
+		}
+		close(emitAbandon)
+		synctest.Wait()
+		if trig != nil && !isClosed(trig) {
+			close(trig) // release the Stop that waited for an event that was never sent
+			synctest.Wait()
+		}
+	}
 	if stopDone != nil && !isClosed(stopDone) {
 		h.fail("C11/stop-blocked", "Stop did not return although the bubble is quiescent")
 	}
@@ -838,16 +947,6 @@ func (h *harness) runBatch(ops []Op) {
 	}
 	for _, s := range newSubs {
 		h.processNew(s)
-	}
-	if emitDone != nil && !isClosed(emitDone) {
-		h.mu.Lock()
-		st, ss, sd := h.stopStarted, h.sentStart, h.sentDone
-		h.mu.Unlock()
-		if !st {
-			h.fail("C11/emit-blocked", "the running manager does not take event %d from the source although the bubble is quiescent (%d taken): the event is delayed for every subscriber", ss-1, sd)
-		}
-		close(emitAbandon)
-		synctest.Wait()
 	}
 	h.checkQuiescent(false)
 }
@@ -899,8 +998,7 @@ func (h *harness) checkQuiescent(final bool) {
 					someoneServed = true
 				}
 			case s.mode == rdManual:
-				want := min(s.budget, len(s.log)+p)
-				if len(s.log) != want {
+				if !h.readCount(s, s.budget) {
 					h.fail("C11/not-delivered/manual", "%v has read %d items, but it asked for %d and %d were due (%s)",
 						s, len(s.log), s.budget, len(s.log)+p, h.others(s))
 					return
@@ -1036,7 +1134,7 @@ func (h *harness) settleSlow() {
 	h.mu.Lock()
 	for _, s := range h.registered() {
 		if s.mode == rdSlow && !s.stalled {
-			if x := time.Duration(h.pending(s)+len(s.sub.Notifications)+2) * s.delay; x > d {
+			if x := time.Duration(h.pendingMax(s)+len(s.sub.Notifications)+2) * s.delay; x > d {
 				d = x
 			}
 		}
@@ -1124,7 +1222,7 @@ func (h *harness) finish() {
 			return
 		}
 		done, ab := make(chan struct{}), make(chan struct{})
-		h.spawn(func() { h.emitter([]emitJob{{n: 1}}, ab, done) })
+		h.spawn(func() { h.emitter([]emitJob{{n: 1}}, ab, done, 0, nil) })
 		synctest.Wait()
 		if !isClosed(done) {
 			h.fail("C11/emit-blocked", "the running manager does not take the probe event from the source")
@@ -1190,6 +1288,7 @@ func (h *harness) finish() {
 }
 
 func (h *harness) run() {
+	h.ch = make(chan blockntfns.BlockNtfn)
 	h.chain = append(h.chain, h.newHeader())
 	for i := 0; i < h.c.InitTip; i++ {
 		h.chain = append(h.chain, h.newHeader())
@@ -1215,7 +1314,9 @@ func (h *harness) run() {
 }
 
 func runCase(t *testing.T, c Case) (v kit.Verdict) {
-	h := &harness{v: &v, c: c, ch: make(chan blockntfns.BlockNtfn)}
+	// Channels are created inside the bubble (run): blocking on a channel
+	// made outside of it is not "durably blocked" for synctest.
+	h := &harness{v: &v, c: c}
 	defer func() {
 		if r := recover(); r != nil {
 			msg := fmt.Sprint(r)
